@@ -1,5 +1,7 @@
 import SmtpV.Proofs.ServerInv
 import SmtpV.Spec.Monitors
+import SmtpV.Props.C03
+import SmtpV.Proofs.OrderFacts
 /-!
 # C10 — STARTTLS discards all plaintext state and input (server side)
 
@@ -95,5 +97,26 @@ theorem C10_no_plaintext_in_tls (s : S) (buf : Bytes) (segs : List Bytes)
   obtain ⟨hc', hw', _⟩ := startTLS_success { s with w := { s.w with buf := buf, segs := segs } } hav hno hs
   rw [hc, hw, hc', hw']
   simp
+
+/-! ### whole connections: consequences of the ordering theorem, stated on the trace -/
+open SmtpV.Spec.Order in
+/-- **C10_upgrade_discards_session.**  On every connection, after a successful STARTTLS handshake the backend sees
+    no Mail, Rcpt, Data, Reset, Auth or SASL step until a new session has been created: nothing learned in plaintext
+    (the session, its authentication, its envelope) is used inside TLS, whatever was pipelined behind the command. -/
+theorem C10_upgrade_discards_session (s : S) (h : Props.C03.Fresh s) (pre mid post : List Ev) (e : Ev)
+    (htr : (serve s).evs.reverse = pre ++ .tlsStart true :: (mid ++ e :: post)) (hu : usesSession e = true) :
+    ∃ x ∈ mid, isNs x = true := by
+  obtain ⟨m, hm⟩ := run_ok_of_check (Props.C03.order_accepts_every_connection s h)
+  rw [htr] at hm
+  exact accepted_upgrade_discards hm hu
+
+open SmtpV.Spec.Order in
+/-- **C10_new_session_sees_tls.**  Every session created after a successful handshake is told that TLS is active. -/
+theorem C10_new_session_sees_tls (s : S) (h : Props.C03.Fresh s) (pre mid post : List Ev) (id : Nat) (helo : Bytes)
+    (tls : Bool) (r : BRes) (htr : (serve s).evs.reverse = pre ++ .tlsStart true :: (mid ++ .ns id helo tls r :: post)) :
+    tls = true := by
+  obtain ⟨m, hm⟩ := run_ok_of_check (Props.C03.order_accepts_every_connection s h)
+  rw [htr] at hm
+  exact accepted_ns_sees_tls hm
 
 end SmtpV.Props.C10
